@@ -246,6 +246,9 @@ class CheckRaises(FuncRule):
                 if issubclass(exc, declared_types):
                     continue
                 exc = exc.__name__
+            elif not isinstance(exc, str):
+                # a callee can declare a builtin that is not a class, like `len`
+                exc = getattr(exc, '__name__', None) or repr(exc)
             yield Error(
                 code=self.code,
                 text=self.message,
